@@ -1,7 +1,4 @@
 SPECIFICATION Spec
-INVARIANT BuildIffUnambiguous
-INVARIANT AtMostOne
-INVARIANT TrieRefinesSpellings
-INVARIANT StdIffRequested
+INVARIANT TreeOk
 INVARIANT Emit
 CHECK_DEADLOCK FALSE
